@@ -444,7 +444,11 @@ func (p *c19) Run(raw json.RawMessage) eng.Result {
 	case "values":
 		lf := model.DefAt(m, "v").(meta.HasDataDefinitions).Definition(c.Leaf).(meta.Leafable)
 		vals := model.FullVals(lf)
-		if lf.Type().Format().Single() == val.FmtString {
+		eff := lf.Type()
+		if eff.Format().Single() == val.FmtLeafRef {
+			eff = eff.Resolve()
+		}
+		if eff.Format().Single() == val.FmtString {
 			vals = nil
 			for _, s := range XMLText {
 				vals = append(vals, val.String(s))
